@@ -52,6 +52,7 @@ type Kernel struct {
 
 	mu       sync.Mutex
 	parked   []*parkedTask
+	zombies  []*parkedTask
 	cur      string
 	inline   int
 	draining atomic.Bool
@@ -274,6 +275,29 @@ func (k *Kernel) Quiesce(max int, check func()) bool {
 	return false
 }
 
+// Kill models the crash of a repo-owned goroutine: its parked entries are taken away from the scheduler,
+// so it never runs again during the run (it is released only while draining, so that the bubble can end).
+func (k *Kernel) Kill(task string) int {
+	k.mu.Lock()
+	defer k.mu.Unlock()
+
+	keep := k.parked[:0:0]
+	n := 0
+
+	for _, p := range k.parked {
+		if p.task == task {
+			k.zombies = append(k.zombies, p)
+			n++
+		} else {
+			keep = append(keep, p)
+		}
+	}
+
+	k.parked = keep
+
+	return n
+}
+
 // Fail records the first violation.
 func (k *Kernel) Fail(v *Violation) {
 	if k.draining.Load() {
@@ -373,6 +397,12 @@ func (k *Kernel) Drain(stop func()) {
 	if stop != nil {
 		k.Inline(stop)
 	}
+
+	// crashed goroutines may now run to their end
+	k.mu.Lock()
+	k.parked = append(k.parked, k.zombies...)
+	k.zombies = nil
+	k.mu.Unlock()
 
 	for i := 0; i < 100000; i++ {
 		synctest.Wait()
